@@ -727,11 +727,18 @@ Fixpoint excused_wait (fuel : nat) (s : bstate) (a : actor) : bool :=
     | _ => false
     end
   end.
+(* ... or it sits in Wait / Shutdown while an asynchronous delivery is stuck in that exception *)
+Definition excused (s : bstate) (a : actor) : bool :=
+  excused_wait 8 s a ||
+  match assoc_get (code s) a with
+  | Some (IDo AWait :: _) | Some (IShutdownSelect _ _ :: _) => existsb (fun t => excused_wait 8 s (snd t)) (tasks s)
+  | _ => false
+  end.
 Definition ok03d (i : binput) (o : bobs) : bool :=
   match bo_unfinished o with
   | [] => true
   | ts => match model_run i with
-          | Some r => forallb (excused_wait 8 (rs_state r)) ts
+          | Some r => forallb (excused (rs_state r)) ts
           | None => false
           end
   end.
